@@ -99,16 +99,32 @@ def pairwise_matrix(ctx, repo, pid, dim):
             if not (len(lp.items) == 1 and isinstance(lp.items[0], Guard)):
                 return None
             g = lp.items[0]
+            chain_ = [g]
+            while len(g.items) == 1 and isinstance(g.items[0], Guard):
+                g = g.items[0]
+                chain_.append(g)
             fl = flat_elems(g.items)
             if fl is None:
                 return None
-            return lp, g, fl
+            # the guard that carries the shared-vertex test; any other guard on the path is an extra condition
+            thr_g = [x for x in chain_ if "len(" in vstr(x.cond) and ("intersection" in vstr(x.cond) or "bitand" in vstr(x.cond))]
+            main = thr_g[-1] if thr_g else g
+            extras.setdefault(id(lst), [x.cond for x in chain_ if x is not main])
+            return lp, main, fl
+        extras = {}
         ur, uc, uv = unwrap(rows), unwrap(cols), unwrap(vals)
         if ur is None or uc is None or uv is None:
             top = contains_top(vals) or contains_top(rows) or contains_top(cols)
             ctx.inconclusive("MIRROR", tag, "emission lists are not `for pair: if adjacent: emit`", where, witness=top or vstr(rows)[:300])
             continue
         lp, g, rfl = ur
+        extra_conds = extras.get(id(rows), [])
+        ctx.instance("LIN")
+        if extra_conds:
+            ctx.violate("LIN", f"{tag}.extra_condition", "a pair of cells is entered only if it ALSO passes a condition that is not the "
+                        "shared-vertex test: cells that share dim-1 Voronoi vertices but fail it are not neighbours in the matrix (adjacency "
+                        "must be exactly `|shared reduced vertices| >= dim-1`)", where, "for index_tuple in combinations(...): ...",
+                        witness="; ".join(vstr(c)[:160] for c in extra_conds))
         same = (uc[0].idx == lp.idx and uv[0].idx == lp.idx and vkey(uc[1].cond) == vkey(g.cond) == vkey(uv[1].cond))
         ctx.check(same, "PAIR", f"{tag}.aligned", "rows, columns and values are emitted in the same loop under the same guard", where,
                   witness="different loops/guards")
@@ -141,20 +157,29 @@ def pairwise_matrix(ctx, repo, pid, dim):
         guards[prop] = g.cond
         # threshold
         c = g.cond
-        okt = isinstance(c, CondV) and c.kind == "opaque" and c.args[0] == ">=" and isinstance(c.args[2], Num) and \
-            c.args[2].p == Poly.const(dim - 1) and isinstance(c.args[1], Term) and c.args[1].op == "len"
+        thr = None
+        lenterm = None
+        if isinstance(c, CondV) and c.kind == "opaque" and len(c.args) == 3:
+            op_, a_, b_ = c.args
+            if isinstance(a_, Term) and a_.op == "len" and isinstance(b_, Num) and op_ in (">=", ">"):
+                lenterm, thr = a_, (b_.p if op_ == ">=" else b_.p + 1)
+            elif isinstance(b_, Term) and b_.op == "len" and isinstance(a_, Num) and op_ in ("<=", "<"):
+                lenterm, thr = b_, (a_.p if op_ == "<=" else a_.p + 1)
         inter_ok = False
-        if okt:
-            t = c.args[1].args[0]
-            inter_ok = isinstance(t, Term) and t.op in ("m.intersection", "set_intersection") and \
+        if lenterm is not None:
+            t = lenterm.args[0]
+            inter_ok = isinstance(t, Term) and t.op in ("m.intersection", "set_intersection", "bitand") and \
                 "comb_lo" in vstr(t) and "comb_hi" in vstr(t)
         ctx.instance("LIN")
-        if okt and inter_ok:
+        if thr is None or not inter_ok:
+            ctx.inconclusive("LIN", f"{tag}.threshold", "adjacency criterion has a form the rule does not read (expected a comparison of "
+                             "len(<vertex set of i> intersected with <vertex set of j>) with a number)", where, witness=vstr(c)[:300])
+        elif thr == Poly.const(dim - 1):
             ctx.ok("LIN", f"{tag}.threshold", f"cells are adjacent iff they share at least dim-1 = {dim - 1} reduced vertices", where,
                    derived=vstr(c)[:200])
         else:
             ctx.violate("LIN", f"{tag}.threshold", f"adjacency criterion is not `|shared reduced vertices| >= dim - 1` (= {dim - 1})", where,
-                        "if len(set_1.intersection(set_2)) >= self.get_dim() - 1", witness=vstr(c)[:300])
+                        "if len(set_1.intersection(set_2)) >= self.get_dim() - 1", witness=f"effective threshold {thr.pretty()}: {vstr(c)[:300]}")
     if len(guards) == 3:
         keys = {vkey(v) for v in guards.values()}
         ctx.instance("MIRROR")
@@ -326,8 +351,16 @@ def quaternion_distance_range(ctx, repo, pid):
                        derived=vstr(res)[:200])
                 c, av, bv = res.args
                 # structure check of the fold on the opaque diagonal
-                okr = isinstance(c, CondV) and c.kind == "opaque" and c.args[0] == ">" and isinstance(c.args[2], Num) and c.args[2].p == pi / 2
-                ctx.check(okr, "RANGE", f"{pid}.qdist.{shape}.switch", "switch point of the sign fold is exactly pi/2", fi.where, witness=vstr(c)[:200])
+                if not (isinstance(c, CondV) and c.kind == "opaque" and c.args[0] in (">", ">=", "<", "<=") and isinstance(c.args[2], Num)):
+                    ctx.inconclusive("RANGE", f"{pid}.qdist.{shape}.switch", "condition of the row-wise sign fold has an unrecognised form", fi.where,
+                                     witness=vstr(c)[:200])
+                    continue
+                hi_v, lo_v = (av, bv) if c.args[0] in (">", ">=") else (bv, av)
+                diag = c.args[1]
+                okr = c.args[2].p == pi / 2 and vstr(lo_v) == vstr(diag) and isinstance(hi_v, Term) and hi_v.op == "sub" and \
+                    isinstance(hi_v.args[0], Num) and hi_v.args[0].p == pi and vstr(hi_v.args[1]) == vstr(diag)
+                ctx.check(okr, "RANGE", f"{pid}.qdist.{shape}.switch", "row-wise fold: theta up to pi/2, pi - theta above (switch exactly at pi/2)",
+                          fi.where, witness=f"switch at {vstr(c.args[2])}; above: {vstr(hi_v)[:80]}; below: {vstr(lo_v)[:80]}")
             elif contains_top(res):
                 ctx.inconclusive("RANGE", f"{pid}.qdist.{shape}", "row-wise quaternion distance not derived", fi.where, witness=contains_top(res))
             else:
